@@ -1,4 +1,5 @@
 import YaqsModel.Lemmas.Born
+import YaqsModel.Lemmas.BornGlobal
 
 /-!
 # C12 — sampling follows the Born rule; the outcome is keyed by qubit
@@ -252,5 +253,126 @@ theorem measure_shifts (L : Nat) (site : Int) :
   constructor
   · intro h; rw [if_neg (by omega)]
   · intro h; rw [if_pos (by omega)]
+
+end Yaqs.Born
+
+/-! ## global meaning of `measure`'s probabilities (the canonical-form argument)
+
+`measure_inplace` reads `p` off the *site tensor*: `p[a] = rsq·‖rot(T)[a]‖² / ‖T‖²`.  The theorems below say what this
+number is for the *full state* `ψ = pre ++ T :: post`:
+
+* `denseNormSq ψ = Σ_τ ‖Π_k ψ_k[τ_k]‖²` — the sum over all `2^L` configurations of the squared modulus of the amplitude
+  (the product matrix has the single entry `(0,0)` for boundary bonds of dimension 1), i.e. `‖ψ‖²`;
+* `bornWeight b pre T post a = rsq · Σ_{τ₁,τ₂} ‖Π pre[τ₁] · rot(T)[a] · Π post[τ₂]‖²` — the sum over all configurations of
+  the *other* sites of the squared modulus of the amplitude with the measured site rotated into the measurement basis
+  and fixed to `a`: the Born probability (unnormalised) of reading `a`; in the Z basis literally
+  `Σ_{cfg with cfg_site = a} |amp cfg|²` (`measure_global_Z`).
+
+Both are plain finite sums over the executable model's own matrices (`Lemmas/BornGlobal.lean`), every chain length, every
+position of the measured site, every (padded) bond dimension, every tensor over ℚ(i). -/
+namespace Yaqs.Born
+open Yaqs.CB
+
+/-- **C12.7 (`measure_global`, environment form)** If the left environment of the sites before the measured one acts
+    as the identity on the site tensor and so does the right environment of the sites after it (what the
+    mixed-canonical form means for zero-padded tensors; `E_L`, `E_R` are the `envL`, `envR` of C11's
+    `local_expect_dense`), then the vector `measure` hands to `choice`, computed from the site tensor alone, is the
+    Born distribution of the full state: `p[a'] = bornWeight a' / ‖ψ‖²` for both outcomes. -/
+theorem measure_global_env {n : Nat} (b : Basis) (hu : b.IsUnitary) (pre post : List (Site n)) (T : Site n) (a : Fin 2)
+    (hL : ∀ s, LocalExpect.envL 1 (pre.map toMS) * toMS T s = toMS T s)
+    (hR : ∀ s, toMS T s * LocalExpect.envR (post.map toMS) = toMS T s)
+    (hN : siteNorm T ≠ 0) (hpos : frob (rotT b.R T a) ≠ 0) :
+    ∃ out, measureSite b T a = some out ∧ denseNormSq (pre ++ T :: post) ≠ 0 ∧
+      ∀ a', out.p a' = bornWeight b pre T post a' / denseNormSq (pre ++ T :: post) := by
+  obtain ⟨out, hout, hp, -⟩ := measure_inplace b hu T a hN hpos
+  refine ⟨out, hout, ?_, fun a' => ?_⟩
+  · rw [denseNormSq_env pre post T hL hR]; exact hN
+  · rw [hp a', bornWeight_env b pre post T a' hL hR, denseNormSq_env pre post T hL hR]
+
+/-- **C12.7 (`measure_global`)** If every site left of the measured one is left-isometric (`Σ_s B[s]ᴴB[s] = 1`) and every
+    site right of it is right-isometric (`Σ_s B[s]B[s]ᴴ = 1`) — the mixed-canonical form that `measure` establishes by
+    its shifts (`measure_shifts`: shifts `0 … site-1` on a state that came in with its centre at 0;
+    `c10_set_canonical_form_isometries` / `c10_shift_right_isometric`: the shifted-over sites are left-isometric, the
+    others stay right-isometric) — then the probabilities computed from the site tensor alone are the Born
+    probabilities of the full state, `Σ_{cfg with cfg_site = a'} |amp cfg|² / ‖ψ‖²` in the measured basis.
+    Same argument as C11's `local_expect_dense_canonical` (a projector is an operator). -/
+theorem measure_global {n : Nat} (b : Basis) (hu : b.IsUnitary) (pre post : List (Site n)) (T : Site n) (a : Fin 2)
+    (hpre : ∀ B ∈ pre, gramL B = oneMat n) (hpost : ∀ B ∈ post, gram B = oneMat n)
+    (hN : siteNorm T ≠ 0) (hpos : frob (rotT b.R T a) ≠ 0) :
+    ∃ out, measureSite b T a = some out ∧ denseNormSq (pre ++ T :: post) ≠ 0 ∧
+      ∀ a', out.p a' = bornWeight b pre T post a' / denseNormSq (pre ++ T :: post) := by
+  refine measure_global_env b hu pre post T a (fun s => ?_) (fun s => ?_) hN hpos
+  · rw [envL_of_leftIso pre hpre, Matrix.one_mul]
+  · rw [envR_of_rightIso post hpost, Matrix.mul_one]
+
+/-- **C12.7 (the hypotheses are C10's isometry conditions)** `gramL B = 1` / `gram B = 1` on the executable tensors are
+    literally `LeftIso` / `RightIso` of `Lemmas/Mps.lean` (`Σ_s (B s)ᴴ * B s = 1`, `Σ_s B s * (B s)ᴴ = 1`) for the
+    Matrix-valued site tensor `toMS B` — the conclusions of `c10_set_canonical_form_isometries`. -/
+theorem measure_global_hyps {n : Nat} (B : Site n) :
+    (gramL B = oneMat n ↔ ∑ s, (toMS B s).conjTranspose * toMS B s = 1) ∧
+    (gram B = oneMat n ↔ ∑ s, toMS B s * (toMS B s).conjTranspose = 1) :=
+  ⟨gramL_eq_one_iff B, gram_eq_one_iff B⟩
+
+/-- **C12.7 (zero-padded tensors)** the same for the tensors the driver actually sees — bonds zero-padded to a common
+    size, where a left-isometric tensor has `Σ_s B[s]ᴴB[s]` = a diagonal projector rather than `1`: it is enough that
+    the chain is `LeftCanon` up to the measured tensor and `RightCanon` from it on (each tensor lives where its
+    neighbour is an isometry; `RightCanon` is the hypothesis of `chain_rule`). -/
+theorem measure_global_padded {n : Nat} (b : Basis) (hu : b.IsUnitary) (pre post : List (Site n)) (T : Site n) (a : Fin 2)
+    (hpre : LeftCanon (pre ++ [T])) (hpost : RightCanon (T :: post))
+    (hN : siteNorm T ≠ 0) (hpos : frob (rotT b.R T a) ≠ 0) :
+    ∃ out, measureSite b T a = some out ∧ denseNormSq (pre ++ T :: post) ≠ 0 ∧
+      ∀ a', out.p a' = bornWeight b pre T post a' / denseNormSq (pre ++ T :: post) :=
+  measure_global_env b hu pre post T a (envL_of_leftCanon pre T hpre) (envR_of_rightCanon post T hpost) hN hpos
+
+/-- **C12.7 (computational basis, written out)** for `basis = "Z"` the Born weight is literally the sum of
+    `‖amp cfg‖²` over the configurations `cfg = τ₁ ++ a' :: τ₂` whose entry at the measured site is `a'`. -/
+theorem measure_global_Z {n : Nat} (pre post : List (Site n)) (T : Site n) (a : Fin 2)
+    (hpre : LeftCanon (pre ++ [T])) (hpost : RightCanon (T :: post))
+    (hN : siteNorm T ≠ 0) (hpos : frob (rotT basisZ.R T a) ≠ 0) :
+    ∃ out, measureSite basisZ T a = some out ∧
+      ∀ a', out.p a' =
+        (sumCfgQ pre.length fun τ1 => sumCfgQ post.length fun τ2 => frob (chainS (pre ++ T :: post) (τ1 ++ a' :: τ2)))
+          / (sumCfgQ (pre ++ T :: post).length fun τ => frob (chainS (pre ++ T :: post) τ)) := by
+  obtain ⟨out, hout, -, hp⟩ := measure_global_padded basisZ basis_rotations.1 pre post T a hpre hpost hN hpos
+  refine ⟨out, hout, fun a' => ?_⟩
+  rw [hp a', bornWeight_Z]
+  rfl
+
+/-! non-vacuity: a three-site chain `[exL, exC, exB]` (square isometries around a generic centre), measured at site 1 -/
+
+/-- left-isometric first tensor (row vector `e_s`, padded): `Σ_s L[s]ᴴ L[s] = 1` -/
+def exL : Site 2 := Site.ofFn fun s => Mat.ofFn fun i j => if i = 0 ∧ j = s then 1 else 0
+/-- a generic centre tensor (not an isometry, norm² ≠ 1) -/
+def exC : Site 2 := Site.ofFn fun s => Mat.ofFn fun i j =>
+  if s = 0 then (if i = j then (if i = 0 then ⟨3 / 5, 0⟩ else ⟨1 / 5, 1⟩) else 0)
+  else (if i = 0 ∧ j = 1 then ⟨0, 2 / 5⟩ else if i = 1 ∧ j = 0 then ⟨1 / 5, 0⟩ else 0)
+
+/-- hypotheses of `measure_global` hold, and both sides are the same concrete numbers: measuring site 1 in the X basis
+    gives `p[1] = bornWeight / ‖ψ‖²`, with `‖ψ‖² = 8/5 ≠ 1` -/
+example : (∀ B ∈ [exL], gramL B = oneMat 2) ∧ (∀ B ∈ [exB], gram B = oneMat 2) ∧
+    siteNorm exC ≠ 0 ∧ frob (rotT basisX.R exC 1) ≠ 0 ∧
+    denseNormSq [exL, exC, exB] = 8 / 5 ∧
+    (measureSite basisX exC 1).map (fun o => (o.p 0, o.p 1))
+      = some (bornWeight basisX [exL] exC [exB] 0 / denseNormSq [exL, exC, exB],
+              bornWeight basisX [exL] exC [exB] 1 / denseNormSq [exL, exC, exB]) ∧
+    bornWeight basisX [exL] exC [exB] 1 ≠ 0 := by
+  refine ⟨?_, ?_, by decide +kernel, by decide +kernel, by decide +kernel, by decide +kernel, by decide +kernel⟩
+  · simp only [List.mem_singleton, forall_eq]; decide +kernel
+  · simp only [List.mem_singleton, forall_eq]; decide +kernel
+
+/-- zero-padded instance (`measure_global_padded`): `[exA, exB]` of above measured at site 0 (`pre = []`), and a product
+    state with genuine 1-dimensional bonds measured at site 1 — there `Σ_s A[s]ᴴA[s] = diag(1,0) ≠ 1`, so only the
+    padded form of the hypothesis applies -/
+def exA1 : Site 2 := Site.ofFn fun s => Mat.ofFn fun i j => if i = 0 ∧ j = 0 then (if s = 0 then ⟨3 / 5, 0⟩ else ⟨0, 4 / 5⟩) else 0
+def exT1 : Site 2 := Site.ofFn fun s => Mat.ofFn fun i j => if i = 0 ∧ j = 0 then (if s = 0 then ⟨2, 0⟩ else ⟨0, 1⟩) else 0
+
+example : LeftCanon ([] ++ [exA]) ∧ RightCanon (exA :: [exB]) ∧
+    LeftCanon ([exA1] ++ [exT1]) ∧ RightCanon (exT1 :: []) ∧ gramL exA1 ≠ oneMat 2 ∧
+    (measureSite basisZ exT1 0).map (fun o => (o.p 0, o.p 1)) = some (4 / 5, 1 / 5) ∧
+    bornWeight basisZ [exA1] exT1 [] 0 / denseNormSq [exA1, exT1] = 4 / 5 ∧
+    (measureSite basisY exA 0).map (fun o => o.p 1) = some (bornWeight basisY [] exA [exB] 1 / denseNormSq [exA, exB]) := by
+  refine ⟨trivial, exCanon, ⟨?_, trivial⟩, trivial, by decide +kernel, by decide +kernel, by decide +kernel,
+    by decide +kernel⟩
+  decide +kernel
 
 end Yaqs.Born
